@@ -74,10 +74,15 @@ def run(tier):
         if len(ck.samples) < 3 and name.startswith("churn"):
             ck.sample({"program": name, "source": src[-300:], "outcome": base[1][:200]})
     # raw active-fiber pointer coherence on the unchecked build with hooks
-    hf = common.run_batch("hookfast", [mk_case(c["id"], c["steps"], {"gc": "default"}, c["mods"], c["globals"])
+    hf = common.run_batch("hookfast", [mk_case(c["id"], c["steps"], {"gc": "default", "dispatch": 1}, c["mods"], c["globals"])
                                        for c in cases], timeout=tmo)
     for i, res in enumerate(hf):
         ck.evaluations += 1
+        ck.count("instructions_with_fiber_pointer_checked", res.get("dispatch", {}).get("dispatched", 0))
+        for ev in res.get("events", []):
+            if ev["sig"] in ("Dispatch(RawFiberPointerIncoherent)", "Dispatch(ActiveChunkNotFrameChunk)"):
+                name, src, mods, gl = progs[i]
+                ck.violation(ev["sig"], {"program": name, "source": src, "modules": mods, "what": ev["detail"]})
         for st in res.get("steps", []):
             state = st.get("state")
             if state is not None:
